@@ -88,6 +88,18 @@ partial def explore (A : Alg L R Q V) (letters : Array (L × Nat)) (maxReport : 
                 path := parent[j]!.2 :: path
                 j := parent[j]!.1
               dis := dis.push ⟨toString (n.s.getD 0), r, A.showV t.2, A.showV sv, path, wit⟩
+          -- C11: a reported boundary must leave the state a fresh start on the suffix would reach
+          if n.s.isSome && A.isB t.2 && !((A.trans none x rho').1 == t.1) then
+            disCount := disCount + 1
+            let fam := s!"R/{n.s.getD 0}/{r}"
+            if !seenFam.contains fam && dis.size < maxReport then
+              seenFam := seenFam.insert fam 1
+              let mut path : List Nat := [r]
+              let mut j := i
+              while parent[j]!.1 != j do
+                path := parent[j]!.2 :: path
+                j := parent[j]!.1
+              dis := dis.push ⟨toString (n.s.getD 0), r, s!"state-after-boundary={t.1}", s!"fresh-start={(A.trans none x rho').1}", path, wit⟩
           let n' : Node R Q := ⟨some t.1, A.qstep n.q x, rho'⟩
           if !idx.contains n' then
             idx := idx.insert n' nodes.size
